@@ -320,7 +320,7 @@ func c16BridgeMain(t *testing.T) {
 		run.Distinct(fmt.Sprintf("%s|K=%d|s2t=%s|t2s=%s|overlap=%v", path, k, cls(tgtGot.Load()), cls(srcGot.Load()), overlap))
 		if len(leaked) > 0 {
 			sum := vk.FrameSummary(leaked)
-			run.Violation("C16:bridge|goroutine-left|"+c16LeakFn(sum[0]), map[string]any{"case": desc, "frames": sum, "stack": leaked[0].Stack})
+			run.Violation("C16:bridge|goroutine-left|"+c16LeakFn(leaked[0]), map[string]any{"case": desc, "frames": sum, "stack": leaked[0].Stack})
 			run.Count("leak_violations", 1) // after 3 the test stops: every further trial would wait the full poll interval
 		}
 		if cloud.maxInGet.Load() >= 2 {
@@ -404,10 +404,17 @@ func c16BridgeMain(t *testing.T) {
 	}
 }
 
-// c16LeakFn strips the (varying) goroutine state from a vk.FrameSummary entry.
-func c16LeakFn(s string) string {
-	if i := strings.Index(s, "tunnox-core/"); i >= 0 {
-		return s[i:]
+// c16LeakFn names a leaked goroutine by its entry function (outermost tunnox-core
+// frame): stable across the states/inner frames the goroutine happens to be in.
+func c16LeakFn(g vk.Goroutine) string {
+	fn := "?"
+	for _, l := range strings.Split(g.Stack, "\n") {
+		if strings.HasPrefix(l, "tunnox-core/") {
+			fn = l
+			if i := strings.LastIndex(fn, "("); i > 0 {
+				fn = fn[:i]
+			}
+		}
 	}
-	return s
+	return fn
 }
